@@ -17,7 +17,7 @@ LAST = dt.date(2101, 4, 5)
 def plan(tier, seed):
     shards = [{"kind": "dates", "part": i, "parts": 16} for i in range(16)]
     shards += [{"kind": "boundaries", "part": i, "parts": 8, "seed": seed} for i in range(8)]
-    k = 60 if tier == "quick" else 1500
+    k = 160 if tier == "quick" else 1500
     shards += [{"kind": "random", "seed": seed, "shard": i, "n": 60} for i in range(k)]
     shards += [{"kind": "embedded", "seed": seed, "shard": i, "n": 40} for i in range(16 if tier == "quick" else 300)]
     shards += [{"kind": "mcp", "part": i, "parts": 4 if tier == "quick" else 1, "of": 4} for i in range(4)]
